@@ -313,6 +313,73 @@ def _error_calls(tree: ast.AST, fname: str) -> list[tuple[str, int, int, int]]:
     return out
 
 
+def _error_type_installed(parse: ast.FunctionDef) -> tuple[bool, list[str]]:
+    """Does the tokenizer that `Keyvalues.parse` iterates over have `error_type = KeyValError` on EVERY path to the loop?
+    (The parser model calls every tokenizer error and every `tokenizer.error(...)` a KeyValError.)  Abstract execution of the
+    statements before the first `for ... in <tokenizer>` loop with the state "installed on all paths so far": `<tok> =
+    Tokenizer(..., KeyValError, ...)` (third positional argument or `error=`) installs it, `<tok> = <other>` loses it,
+    `<tok or alias>.error_type = KeyValError` installs it, any other value loses it, `if` joins its two branches with `and`.
+    Second component: a trace for the evidence file."""
+    loop = next((n for n in parse.body if isinstance(n, ast.For) and isinstance(n.iter, ast.Name)), None)
+    if loop is None:
+        raise TranslateError('Keyvalues.parse: no top-level `for ... in <tokenizer>` loop')
+    tok = loop.iter.id
+    trace: list[str] = []
+
+    def is_kve(n: ast.expr) -> bool:
+        return isinstance(n, ast.Name) and n.id == 'KeyValError'
+
+    # state: (names whose object has error_type = KeyValError on all paths so far, alias groups name -> names of the same object)
+    def run(stmts: list[ast.stmt], inst: set[str], same: dict[str, set[str]]) -> tuple[set[str], dict[str, set[str]]]:
+        inst, same = set(inst), {k: set(v) for k, v in same.items()}
+        for s in stmts:
+            if s is loop:
+                break
+            if isinstance(s, (ast.Assign, ast.AnnAssign)) and getattr(s, 'value', None) is not None:
+                tgs = s.targets if isinstance(s, ast.Assign) else [s.target]
+                v = s.value
+                for tg in tgs:
+                    if isinstance(tg, ast.Name):
+                        for g in same.values():
+                            g.discard(tg.id)
+                        inst.discard(tg.id)
+                        same[tg.id] = {tg.id}
+                        if isinstance(v, ast.Call) and isinstance(v.func, ast.Name) and v.func.id == 'Tokenizer':
+                            err = v.args[2] if len(v.args) >= 3 else next((k.value for k in v.keywords if k.arg == 'error'), None)
+                            if err is not None and is_kve(err) and not any(isinstance(x, ast.Starred) for x in v.args) \
+                                    and not any(k.arg is None for k in v.keywords):
+                                inst.add(tg.id)
+                        elif isinstance(v, ast.Name):
+                            grp = same.setdefault(v.id, {v.id})
+                            grp.add(tg.id)
+                            same[tg.id] = grp
+                            if v.id in inst:
+                                inst.add(tg.id)
+                        if tg.id == tok:
+                            trace.append(f'line {s.lineno}: {tok} = {ast.unparse(v)[:60]} -> {"installed" if tok in inst else "not installed"}')
+                    elif isinstance(tg, ast.Attribute) and tg.attr == 'error_type' and isinstance(tg.value, ast.Name):
+                        grp = same.setdefault(tg.value.id, {tg.value.id})
+                        if is_kve(v):
+                            inst |= grp
+                        else:
+                            inst -= grp
+                        trace.append(f'line {s.lineno}: {ast.unparse(tg)} = {ast.unparse(v)[:40]}')
+            elif isinstance(s, ast.If):
+                (i1, s1), (i2, s2) = run(s.body, inst, same), run(s.orelse, inst, same)
+                inst = i1 & i2
+                same = {k: s1.get(k, {k}) & s2.get(k, {k}) for k in set(s1) | set(s2)}
+            elif isinstance(s, (ast.With, ast.Try, ast.While, ast.For, ast.Delete)):
+                if any(isinstance(x, ast.Name) and isinstance(x.ctx, (ast.Store, ast.Del)) and (x.id == tok or x.id in inst) for x in ast.walk(s)) \
+                        or any(isinstance(x, ast.Attribute) and x.attr == 'error_type' and isinstance(x.ctx, (ast.Store, ast.Del)) for x in ast.walk(s)):
+                    raise TranslateError(f'keyvalues.py:{s.lineno}: the tokenizer / its error_type is assigned inside a compound statement the census does not follow')
+        return inst, same
+
+    inst, _ = run(parse.body, set(), {})
+    ok = tok in inst
+    trace.append(f'at the loop (line {loop.lineno}): ' + ('installed on every path' if ok else 'NOT installed on every path'))
+    return ok, trace
+
+
 def _coq_str(s: str) -> str:
     return '[' + '; '.join(str(ord(c)) for c in s) + ']%N'
 
@@ -461,6 +528,8 @@ def translate() -> tuple[str, dict]:
         pg += g
         parse_bad_raises += bad
 
+    et_ok, et_trace = _error_type_installed(parse)
+
     allsites = sites_f + sites_p
     lines = [
         '(* GENERATED by translate/c03_kvparse.py from /repo/src/srctools/keyvalues.py and tokenizer.py. Do not edit. *)',
@@ -489,6 +558,8 @@ def translate() -> tuple[str, dict]:
         'Definition tok_foreign_raises : list N := [' + '; '.join(map(str, tok_bad_raises)) + '].',
         '(* Keyvalues.parse: lines of raise statements that raise neither tokenizer.error(...) nor KeyValError(...) *)',
         f'Definition kv_raises_typed : N := {pg}.',
+        '(* the tokenizer Keyvalues.parse iterates over has error_type = KeyValError on every path to the loop *)',
+        f'Definition kv_error_type_installed : bool := {_b(et_ok)}.',
         'Definition kv_foreign_raises : list N := [' + '; '.join(map(str, parse_bad_raises)) + '].',
         '(* every .error(<literal>, args...) call: (line, positional fields the literal needs, arguments passed) *)',
         'Definition error_format_calls : list (N * N * N) := [' + '; '.join(f'({ln}, {need}, {na})' for _f, ln, need, na in ecalls) + '].',
@@ -501,6 +572,7 @@ def translate() -> tuple[str, dict]:
                 tokenizer_unguarded=[{k5: v5 for k5, v5 in st.items() if k5 != 'node'} for st in tok_unguarded],
                 tokenizer_raises=dict(through_error=tok_raises, by_design=tok_design, foreign_lines=tok_bad_raises),
                 parse_raises=dict(typed=pg, foreign_lines=parse_bad_raises),
+                error_type_installed=et_ok, error_type_trace=et_trace,
                 error_calls=len(ecalls),
                 error_calls_bad=[f'{f}:{ln} needs {need} has {na}' for f, ln, need, na in ecalls if need > na])
     return '\n'.join(lines), side
